@@ -316,7 +316,7 @@ Cause(g, e, r, A, O, h0) ==
      THEN "KF_StaleOfferKept"         \* a freed lease re-offers its expired offer without any check
      ELSE IF conflict /\ a # NoA /\ (\/ a \in O[k].dup
                                      \/ \E j \in Holders(e, r, A) : a \in O[j].dup
-                                     \/ (r.t = "offer" /\ (~had \/ (O[k].offer = a /\ O[k].old)) /\ \E j \in CIDs \ {k} : O[j].offer = a /\ ~O[j].old))
+                                     \/ (r.t = "offer" /\ (~had \/ (O[k].offer = a /\ O[k].old)) /\ \E j \in CIDs \ {k} : O[j].offer = a /\ ~(O[j].old /\ ~O[j].lx)))
      THEN "KF_OfferNotReserved"       \* handed out while a fresh OFFER of it to another client was outstanding
      ELSE IF g \in {"C11_NoDoubleAck", "C11_NoOfferOfAcked"} /\ a # NoA
              /\ \E j \in CIDs \ Holders(e, r, A) : \E b \in O[j].ever : b.ip = a
@@ -364,7 +364,7 @@ PropMsg(e, out, h0, cap) ==
           IN IF r.t = "nak" THEN /\ acked' = [A2 EXCEPT ![k] = Nil] /\ obs' = O2 /\ verdict' = renew
              ELSE LET had == a # NoA /\ (o2.offer = a \/ AIp(A2, k) = a \/ o2.last = a)
                       req == IF e.kind = "discover" /\ e.rdisc = a /\ a # NoA /\ ~had THEN o2.req \cup {a} ELSE o2.req
-                      dup == IF r.t = "offer" /\ a # NoA /\ (~had \/ (o2.offer = a /\ o2.old)) /\ (\E j \in CIDs \ {k} : O2[j].offer = a /\ ~O2[j].old)
+                      dup == IF r.t = "offer" /\ a # NoA /\ (~had \/ (o2.offer = a /\ o2.old)) /\ (\E j \in CIDs \ {k} : O2[j].offer = a /\ ~(O2[j].old /\ ~O2[j].lx))    \* an offer the server still holds
                              THEN o2.dup \cup {a} ELSE o2.dup
                       \* an expired offer repeated although the address is meanwhile acknowledged to / tracked for another
                       stl == IF e.kind = "discover" /\ a # NoA /\ o2.offer = a /\ o2.old /\ AIp(A2, k) # a /\ ~o2.lx
@@ -433,8 +433,7 @@ Tick(far) == TickM(far) /\ PropTick(far)
 
 \* a quiet period of 6 s: every outstanding offer is past its validity (Lease.OfferExpiry; the server never reads it)
 AgeM == Quiet /\ UNCHANGED <<lease, next, file, hosts, ment>>
-AgeR == /\ obs' = [j \in CIDs |-> [obs[j] EXCEPT !.old = (obs[j].offer # NoA)]]
-        /\ acked' = acked /\ verdict' = {}
+AgeR == PropIdle          \* nothing ends: the server does not enforce the validity of its offers (only a minute tick frees a lease)
 Age == AgeM /\ AgeR
 
 \* another host (or a client outside DHCP) shows traffic from address a
